@@ -1,8 +1,14 @@
 // Kani harnesses for src/internal/streamname.rs (child module `vk`)
 use super::*;
 
+pub fn stub_format(_args: core::fmt::Arguments<'_>) -> String {
+    String::new()
+}
+
 // @harness name=b64_inverse kind=Pc tier=quick props=C11,C02 desc="for every value v < 64: to_b64(from_b64(v)) == Some(v) and from_b64 does not trip char::from_u32().unwrap(); for every char c: to_b64(c) is Some(v) only for [0-9A-Za-z._], then v < 64 and from_b64(v) == c"
 #[kani::proof]
+#[kani::stub(alloc::fmt::format, stub_format)]
+#[kani::unwind(3)]
 fn b64_inverse() {
     let v: u32 = kani::any();
     if v < 64 {
